@@ -58,9 +58,10 @@ vars == <<lines, expect, sig, wrap, opts, pcand, excl, pc, offset, in_code, cur,
 input == <<lines, expect, sig, wrap>>
 
 OptNames == {"ignore_init_summary", "returns_multiple_items", "returns_named_value",
-             "receives_multiple_items", "receives_named_value", "returns_type_in_property_summary"}
-\* trim_doctest_flags and warn_unknown_params change no branch that decides offsets, sections or items:
-\* they are varied by the harness on every case (both values), not by the model.
+             "receives_multiple_items", "receives_named_value", "returns_type_in_property_summary", "trim_doctest_flags"}
+\* trim_doctest_flags and warn_unknown_params change no branch that decides offsets, sections or items: in seq mode they stay
+\* unread and are varied by the harness on every case.  In struct mode trim_doctest_flags is part of the case: what an Examples
+\* section with doctest decoration (a `# doctest:` comment, a `<BLANKLINE>` output line) must come back as depends on it.
 \* aliasmod: a module in which every documented name is imported from a package that is not loaded (unresolvable alias)
 \* tuplefn / genfn / tupleprop / tuple0fn / gen1fn / gen2fn / iterfn: function (property) whose return annotation is tuple[a, b],
 \* Generator[(a,b), (a,b), (a,b)], tuple[a, b], tuple[()], Generator[a], Generator[a, None], Iterator[a]: expressions with fewer
@@ -109,7 +110,7 @@ AdmMatch(ln) == ln.k \in {"sec", "adm"}                \* _RE_ADMONITION.match
 IsSection(ln) == ln.k = "sec"                          \* admonition_type.lower() in _section_kind
 Indented(ln) == ln.ind > 0                             \* line.startswith(" ") on a non-blank line
 HasColon(ln) == \/ ln.k \in {"sec", "adm"}
-                \/ ln.k = "item" /\ ln.a # "F5"
+                \/ ln.k = "item" /\ ln.a \notin {"F5", "BL"}          \* BL: the doctest output line `<BLANKLINE>`
                 \/ ln.k = "text" /\ ln.a = "colon"
                 \/ ln.k = "prompt" /\ ln.a = "flags"
 TitleOf(ln) == IF ln.t THEN "given" ELSE "none"
@@ -289,7 +290,7 @@ ItemLists(K) == LET S == ItemSpecs(K) IN
   {<<a>> : a \in S} \cup (CASE Variety = "full" -> {<<a, b>> : a \in S, b \in S} [] Variety = "thin" -> {<<a, a>> : a \in S} [] OTHER -> {})
 SectionSpecs ==
   UNION {{[kind |-> K, title |-> t, items |-> il, shape |-> "one"] : t \in BOOLEAN, il \in ItemLists(K)} : K \in ItemKinds \cup RetKinds}
-  \cup {[kind |-> "examples", title |-> t, items |-> <<>>, shape |-> sh] : t \in BOOLEAN, sh \in {"one", "two"}}
+  \cup {[kind |-> "examples", title |-> t, items |-> <<>>, shape |-> sh] : t \in BOOLEAN, sh \in {"one", "two", "three"}}
   \cup {[kind |-> "admonition", title |-> t, items |-> <<>>, shape |-> sh] : t \in BOOLEAN, sh \in Shapes}
   \cup {[kind |-> "text", title |-> FALSE, items |-> <<>>, shape |-> sh] : sh \in Shapes}
 ThinSectionSpecs == {s \in SectionSpecs : s.title = FALSE \/ s.kind \in {"admonition", "parameters"}}
@@ -298,7 +299,7 @@ Structs == UNION {[1..n -> (CASE Variety = "full" -> SectionSpecs [] Variety = "
 
 \* the options the layout depends on (named / multiple), chosen with the structure
 StructOpts == [returns_multiple_items : BOOLEAN, returns_named_value : BOOLEAN,
-               receives_multiple_items : BOOLEAN, receives_named_value : BOOLEAN]
+               receives_multiple_items : BOOLEAN, receives_named_value : BOOLEAN, trim_doctest_flags : BOOLEAN]
 MultiOf(K, so) == IF K = "receives" THEN so.receives_multiple_items ELSE IF K \in {"returns", "yields"} THEN so.returns_multiple_items ELSE TRUE
 NamedOf(K, so) == IF K = "receives" THEN so.receives_named_value ELSE IF K \in {"returns", "yields"} THEN so.returns_named_value ELSE TRUE
 
@@ -327,6 +328,7 @@ StructOK(st, so) ==
   \* the four layout options are varied only when a section they govern is present
   /\ ((\A j \in 1..Len(st) : st[j].kind \notin {"returns", "yields"}) => (so.returns_multiple_items /\ so.returns_named_value))
   /\ ((\A j \in 1..Len(st) : st[j].kind # "receives") => (so.receives_multiple_items /\ so.receives_named_value))
+  /\ ((\A j \in 1..Len(st) : ~(st[j].kind = "examples" /\ st[j].shape = "three")) => so.trim_doctest_flags)
   \* two text sections in a row are one text section; keep texts apart
   /\ \A j \in 1..Len(st) - 1 : ~(st[j].kind = "text" /\ st[j + 1].kind = "text")
   /\ st[1].kind # "text"                                       \* the summary is the text before section 1
@@ -376,11 +378,14 @@ RenderSection(s, so, base) ==    \* lines of one section (without the separating
          IN [lines |-> ls, sig |-> [j \in 1..Len(ls) |-> NoSig],
              exp |-> SecRec("admonition", IF s.title THEN "given" ELSE "type", base, SeqFromTo(base + 1, base + Len(body)), NoItems, <<>>)]
     [] K = "examples" ->
-         LET body == IF s.shape = "one" THEN <<Item(4, "F5"), Blank("e"), Prompt(4), Item(4, "F5")>>
-                     ELSE <<Prompt(4), Prompt(4), Blank("e"), Item(4, "F5"), Blank("e"), Prompt(4)>>
+         \* "three": a prompt with a `# doctest:` comment, the output line `<BLANKLINE>`, an output line - one console block
+         LET body == CASE s.shape = "one" -> <<Item(4, "F5"), Blank("e"), Prompt(4), Item(4, "F5")>>
+                       [] s.shape = "three" -> <<PromptF(4), Item(4, "BL"), Item(4, "F5")>>
+                       [] OTHER -> <<Prompt(4), Prompt(4), Blank("e"), Item(4, "F5"), Blank("e"), Prompt(4)>>
              ls == <<Sec("examples", s.title)>> \o body
              subs == IF s.shape = "one"
                        THEN <<[kind |-> "text", tl |-> <<base + 1>>], [kind |-> "examples", tl |-> <<base + 3, base + 4>>]>>
+                     ELSE IF s.shape = "three" THEN <<[kind |-> "examples", tl |-> <<base + 1, base + 2, base + 3>>]>>
                        ELSE <<[kind |-> "examples", tl |-> <<base + 1, base + 2>>], [kind |-> "text", tl |-> <<base + 4>>],
                               [kind |-> "examples", tl |-> <<base + 6>>]>>
          IN [lines |-> ls, sig |-> [j \in 1..Len(ls) |-> NoSig],
@@ -436,6 +441,7 @@ InitStruct ==
                                       [] o = "returns_named_value" -> Val(so.returns_named_value)
                                       [] o = "receives_multiple_items" -> Val(so.receives_multiple_items)
                                       [] o = "receives_named_value" -> Val(so.receives_named_value)
+                                      [] o = "trim_doctest_flags" -> Val(so.trim_doctest_flags)
                                       [] OTHER -> "F"]
     /\ pcand = {"function"}
 Init ==
